@@ -135,9 +135,17 @@ func cmdFunc(args []string) {
 		}
 		for _, o := range res.Covers {
 			ok := "ok"
-			if o.Verdict != "sat" {
+			if o.Verdict != "sat" && o.Soft {
+				ok = "unreachable"
+			} else if o.Verdict != "sat" {
 				ok = "VACUOUS?"
-				fail++
+				if o.Pair == nil || o.Pair.Verdict == "sat" {
+					if o.Verdict == "unsat" || o.Pair == nil {
+						fail++
+					}
+				} else {
+					ok = "unreachable call"
+				}
 			}
 			{
 				if *dump != "" {
@@ -145,7 +153,9 @@ func cmdFunc(args []string) {
 					os.WriteFile(*dump+"/"+sanitize(o.Name)+".smt2", []byte(Script(append(enableAsserts(res.Candidates), o.PC), ScriptOpts{})), 0o644)
 				}
 			}
-			fmt.Printf("   cover %-40s %s (%s)\n", o.Name, ok, o.Verdict)
+			if ok == "VACUOUS?" && o.Verdict == "unsat" || *verbose {
+				fmt.Printf("   cover %-40s %s (%s)\n", o.Name, ok, o.Verdict)
+			}
 		}
 		for _, o := range res.Obls {
 			if o.Verdict != "unsat" || *verbose {
